@@ -65,3 +65,33 @@ def max_bytes(spec: typing.Any, with_header: bool) -> int:
 
     s = spec if (with_header or spec[0] != "delim") else spec[1]
     return (bls.vmax(layout.tree(s)) + 7) // 8
+
+
+def check_result_ownership(t: typing.Any, spec: typing.Any, data: typing.Any, with_header: bool, got: typing.Tuple[str, typing.Any], detail: str) -> None:
+    """The object deserialize() returns belongs to the caller: no mutable part of it occurs twice in it, and scribbling all over it leaves
+    no trace in what the next call returns for the same bytes (nothing handed out is kept and handed out again)."""
+    import pydsdl
+
+    raw1, _ = guarded(pydsdl.deserialize, t, data, with_delimiter_header=with_header, what="deserialize-again")
+    seen_ids: typing.Dict[int, str] = {}
+
+    def scribble(x: typing.Any, path: str) -> None:
+        if isinstance(x, (dict, list, bytearray)):
+            require(id(x) not in seen_ids, "result-shares-a-mutable-object", "distinct objects", "%s is %s" % (path, seen_ids.get(id(x))), detail)
+            seen_ids[id(x)] = path
+        if isinstance(x, dict):
+            for k_, v_ in list(x.items()):
+                scribble(v_, path + "." + str(k_))
+                x[k_] = 123456789 if not isinstance(v_, (dict, list)) else v_
+            x["scribbled"] = True
+        elif isinstance(x, list):
+            for i_, v_ in enumerate(list(x)):
+                scribble(v_, path + "[%d]" % i_)
+            x.append("scribbled")
+            x.reverse()
+        elif isinstance(x, bytearray):
+            x[:] = b"scribbled"
+
+    scribble(raw1, "result")
+    fresh = deserialize_outcome(t, spec, data, with_header, what="deserialize-after-mutating-earlier-result")
+    require(same_outcome(spec, fresh, got), "result-depends-on-mutation-of-earlier-result", got, fresh, detail)
